@@ -63,26 +63,26 @@ Print Assumptions C06_numbers_kept.
 (** For an accepted periods-per-hour value the periods are numbered consecutively from the one
     containing the start of the time-shift window to the one containing now; period k has id P<k>
     ([pd_nr]) and Period@start = k*P: they tile wall-clock time. *)
-Theorem C06_tiles : forall pph seg mode cont st now ases ps,
-  1 <= pph <= 3600 -> 0 < seg -> 0 <= st <= now ->
-  splitPeriod pph seg mode cont st now ases = Ok ps ->
+Theorem C06_tiles : forall pph seg mode cont ast snr st now ases ps,
+  1 <= pph <= 3600 -> 0 < seg -> ast <= st <= now ->
+  splitPeriod pph seg mode cont ast snr st now ases = Ok ps ->
   let P := periodDurOf pph in
-  let k0 := st / (P * 1000) in
-  let k1 := now / (P * 1000) in
+  let k0 := (st - ast) / (P * 1000) in
+  let k1 := (now - ast) / (P * 1000) in
   map pd_nr ps = seqZ k0 (Z.to_nat (k1 - k0 + 1)) /\
   map pd_start ps = map (fun k => k * P) (seqZ k0 (Z.to_nat (k1 - k0 + 1))) /\
   k0 <= k1 /\
-  k0 * P * 1000 <= st < (k0 + 1) * P * 1000 /\
-  k1 * P * 1000 <= now < (k1 + 1) * P * 1000.
+  ast + k0 * P * 1000 <= st < ast + (k0 + 1) * P * 1000 /\
+  ast + k1 * P * 1000 <= now < ast + (k1 + 1) * P * 1000.
 Proof. exact splitPeriod_tiles. Qed.
 Print Assumptions C06_tiles.
 
 (** Ids are stable over time: in the results for any two instants (and any two single-period
     MPDs), a period's start is its number times P, so equal ids have equal starts and vice versa. *)
-Theorem C06_ids_stable : forall pph seg mode cont st1 now1 st2 now2 ases1 ases2 ps1 ps2 p1 p2,
-  1 <= pph <= 3600 -> 0 < seg -> 0 <= st1 -> 0 <= now1 -> 0 <= st2 -> 0 <= now2 ->
-  splitPeriod pph seg mode cont st1 now1 ases1 = Ok ps1 ->
-  splitPeriod pph seg mode cont st2 now2 ases2 = Ok ps2 ->
+Theorem C06_ids_stable : forall pph seg mode cont ast snr st1 now1 st2 now2 ases1 ases2 ps1 ps2 p1 p2,
+  1 <= pph <= 3600 -> 0 < seg -> ast <= st1 -> ast <= now1 -> ast <= st2 -> ast <= now2 ->
+  splitPeriod pph seg mode cont ast snr st1 now1 ases1 = Ok ps1 ->
+  splitPeriod pph seg mode cont ast snr st2 now2 ases2 = Ok ps2 ->
   In p1 ps1 -> In p2 ps2 ->
   pd_start p1 = pd_nr p1 * periodDurOf pph /\
   (pd_nr p1 = pd_nr p2 <-> pd_start p1 = pd_start p2).
@@ -100,13 +100,13 @@ Print Assumptions C06_ids_stable.
     startNumber plus the number of segments before the period (cf. [C06_numbers_kept]) - unless
     no listed segment reaches the period start, when the unchanged single-period startNumber is
     written next to an empty timeline. *)
-Theorem C06_partition : forall pph seg mode cont st now ases ps j a es,
-  1 <= pph <= 3600 -> 0 < seg -> 0 <= st <= now ->
-  splitPeriod pph seg mode cont st now ases = Ok ps ->
+Theorem C06_partition : forall pph seg mode cont ast snr st now ases ps j a es,
+  1 <= pph <= 3600 -> 0 < seg -> ast <= st <= now ->
+  splitPeriod pph seg mode cont ast snr st now ases = Ok ps ->
   nth_error ases j = Some a -> templateType mode a <> MNumber -> a_tl a = Some es ->
   let P := periodDurOf pph in
-  let k0 := st / (P * 1000) in
-  let k1 := now / (P * 1000) in
+  let k0 := (st - ast) / (P * 1000) in
+  let k1 := (now - ast) / (P * 1000) in
   let ts := tsOf a in
   goodTL es (snrFor mode a) ts ((k1 + 1) * P) ->
   flat_map (periodTimeline j) ps = filter (inWin (k0 * P * ts) ((k1 + 1) * P * ts)) (expandP es) /\
@@ -130,13 +130,13 @@ Print Assumptions C06_partition_open.
 
 (** Every segment of the single-period timeline that starts in [k0*P, (k1+1)*P) is in exactly one
     period: the one containing its start. *)
-Theorem C06_exactly_one : forall pph seg mode cont st now ases ps j a es,
-  1 <= pph <= 3600 -> 0 < seg -> 0 <= st <= now ->
-  splitPeriod pph seg mode cont st now ases = Ok ps ->
+Theorem C06_exactly_one : forall pph seg mode cont ast snr st now ases ps j a es,
+  1 <= pph <= 3600 -> 0 < seg -> ast <= st <= now ->
+  splitPeriod pph seg mode cont ast snr st now ases = Ok ps ->
   nth_error ases j = Some a -> templateType mode a <> MNumber -> a_tl a = Some es ->
   let P := periodDurOf pph in
-  let k0 := st / (P * 1000) in
-  let k1 := now / (P * 1000) in
+  let k0 := (st - ast) / (P * 1000) in
+  let k1 := (now - ast) / (P * 1000) in
   let ts := tsOf a in
   goodTL es (snrFor mode a) ts ((k1 + 1) * P) ->
   forall x, In x (expandP es) -> k0 * P * ts <= fst x < (k1 + 1) * P * ts ->
@@ -148,12 +148,12 @@ Print Assumptions C06_exactly_one.
 
 (** A listed segment that starts at or after the end of the last period is in no period. Such a
     segment exists only with an availabilityTimeOffset of at least one segment duration
-    (ato_3, 2 s segments, periods_60, now = 59 s: [60 s, 62 s) is listed in single-period mode,
+    (ato_3, 2 s segments, periods_60, now = 59 s: the segment starting at 60 s is listed in single-period mode,
     P1 does not exist yet and P0 ends at 60 s).  Outside the quantifier of the property (no
     availabilityTimeOffset there); the hypothesis of [C06_partition_open] excludes it. *)
 Theorem C06_late_segment_refuted :
-  In (5400000, 180000) (expandP atoTL) /\
-  splitPeriod 60 2000 MTimelineTime false 0 59000
+  existsb (fun x => fst x =? 5400000) (expandP atoTL) = true /\
+  splitPeriod 60 2000 MTimelineTime false 0 0 0 59000
     [ {| a_image := false; a_ts := Some 90000; a_dur := None; a_startNr := None; a_tl := Some atoTL |} ] =
   Ok [ {| pd_nr := 0; pd_start := 0;
           pd_as := [ {| o_pto := 0; o_startNr := None; o_tl := Some [ {| p_t := Some 0; p_d := 180000; p_r := 29 |} ]; o_cont := false |} ] |} ].
@@ -162,13 +162,13 @@ Print Assumptions C06_late_segment_refuted.
 
 (** ** $Number$ mode *)
 
-(** Constant duration d with d | P*ts: period k gets startNumber k*P*ts/d and
-    presentationTimeOffset k*P*ts = startNumber*d. *)
-Theorem C06_number_mode : forall mode cont k P a o d,
-  templateType mode a = MNumber -> splitAS mode cont k P a = Ok o -> a_dur a = Some d ->
-  0 <= k -> 0 < P -> 0 < tsOf a -> 0 < d -> (P * tsOf a) mod d = 0 ->
-  k * P * tsOf a < two64 -> k * P * tsOf a < two32 * d ->
-  exists n, o_startNr o = Some n /\ n = k * (P * tsOf a / d) /\ n * d = k * P * tsOf a /\
+(** Constant duration d with d | P*ts: period k (counted from availabilityStartTime) gets
+    startNumber snr + k*P*ts/d and presentationTimeOffset k*P*ts = (startNumber - snr)*d. *)
+Theorem C06_number_mode : forall mode cont snr k P a o d,
+  templateType mode a = MNumber -> splitAS mode cont snr k P a = Ok o -> a_dur a = Some d ->
+  0 <= k -> 0 < P -> 0 < tsOf a -> 0 < d -> (P * tsOf a) mod d = 0 -> 0 <= snr ->
+  k * P * tsOf a < two64 -> k * (P * tsOf a / d) + snr < two32 ->
+  exists n, o_startNr o = Some n /\ n = snr + k * (P * tsOf a / d) /\ (n - snr) * d = k * P * tsOf a /\
             o_pto o = k * P * tsOf a.
 Proof. exact number_mode_aligned. Qed.
 Print Assumptions C06_number_mode.
@@ -186,21 +186,21 @@ Theorem C06_guard_aligned : forall P seg ts d, 0 < seg -> 0 < ts -> 0 < d -> seg
 Proof. exact guard_aligned. Qed.
 Print Assumptions C06_guard_aligned.
 
-(** $Number$ mode with snr_5: period k gets k*P*ts/d although the single-period MPD starts at 5
-    (outside the quantifier of the property: no start number there; observation). *)
-Theorem C06_number_mode_snr_refuted :
-  splitPeriod 60 2000 MNumber false 60500 120500
+(** start_1000 and snr_5 (commits 961c9dc, bde286d): periods are counted from
+    availabilityStartTime and numbers are offset by the start number. *)
+Theorem C06_snr_start_example :
+  splitPeriod 60 2000 MNumber false 1000000 5 1060500 1120500
     [ {| a_image := false; a_ts := None; a_dur := Some 2; a_startNr := Some 5; a_tl := None |} ] =
-  Ok [ {| pd_nr := 1; pd_start := 60; pd_as := [ {| o_pto := 60; o_startNr := Some 30; o_tl := None; o_cont := false |} ] |};
-       {| pd_nr := 2; pd_start := 120; pd_as := [ {| o_pto := 120; o_startNr := Some 60; o_tl := None; o_cont := false |} ] |} ].
-Proof. exact snr_witness. Qed.
-Print Assumptions C06_number_mode_snr_refuted.
+  Ok [ {| pd_nr := 1; pd_start := 60; pd_as := [ {| o_pto := 60; o_startNr := Some 35; o_tl := None; o_cont := false |} ] |};
+       {| pd_nr := 2; pd_start := 120; pd_as := [ {| o_pto := 120; o_startNr := Some 65; o_tl := None; o_cont := false |} ] |} ].
+Proof. exact snr_start_example. Qed.
+Print Assumptions C06_snr_start_example.
 
 (** publishTime in multi-period $Number$ mode = availabilityStartTime + start of the last period. *)
 Theorem C06_publish_number : forall loopMS c now tsbdMS pph seg cont ases ps pt,
-  1 <= pph <= 3600 -> 0 < seg -> 0 <= startS c -> startS c * 1000 <= now -> 0 <= tsbdMS ->
+  1 <= pph <= 3600 -> 0 < seg -> startS c * 1000 <= now -> 0 <= tsbdMS ->
   livePeriods loopMS c now tsbdMS pph seg MNumber cont ases = Ok (ps, pt) ->
-  pt = Some (startS c + now / (periodDurOf pph * 1000) * periodDurOf pph).
+  pt = Some (startS c + (now - startS c * 1000) / (periodDurOf pph * 1000) * periodDurOf pph).
 Proof. exact livePeriods_publish. Qed.
 Print Assumptions C06_publish_number.
 
@@ -208,10 +208,10 @@ Print Assumptions C06_publish_number.
 
 (** A period duration that is not a multiple of asset.SegmentDurMS is rejected with an error, and
     nothing else is. *)
-Theorem C06_reject : forall pph seg mode cont st now ases,
+Theorem C06_reject : forall pph seg mode cont ast snr st now ases,
   1 <= pph <= 3600 -> 0 < seg ->
   ((periodDurOf pph * 1000) mod seg <> 0 <->
-   exists e, splitPeriod pph seg mode cont st now ases = Err e).
+   exists e, splitPeriod pph seg mode cont ast snr st now ases = Err e).
 Proof. exact splitPeriod_reject. Qed.
 Print Assumptions C06_reject.
 
@@ -221,7 +221,7 @@ Print Assumptions C06_reject.
     c06-reject-uses-min-rep-duration). *)
 Theorem C06_reject_refuted :
   (3600 * 1000 * 30000) mod (60060 * 1000) <> 0 /\
-  splitPeriod 1 2000 MNumber false 3541000 3601000 [wave2997] =
+  splitPeriod 1 2000 MNumber false 0 0 3541000 3601000 [wave2997] =
     Ok [ {| pd_nr := 0; pd_start := 0; pd_as := [ {| o_pto := 0; o_startNr := Some 0; o_tl := None; o_cont := false |} ] |};
          {| pd_nr := 1; pd_start := 3600;
             pd_as := [ {| o_pto := 108000000; o_startNr := Some 1798; o_tl := None; o_cont := false |} ] |} ] /\
@@ -230,26 +230,46 @@ Proof. exact reject_witness. Qed.
 Print Assumptions C06_reject_refuted.
 
 (** Continuity is signalled in every AdaptationSet of every period iff requested. *)
-Theorem C06_continuity : forall mode cont k P a o,
-  splitAS mode cont k P a = Ok o -> o_pto o = u64 (k * P * tsOf a) /\ o_cont o = cont.
+Theorem C06_continuity : forall mode cont snr k P a o,
+  splitAS mode cont snr k P a = Ok o -> o_pto o = u64 (k * P * tsOf a) /\ o_cont o = cont.
 Proof. exact splitAS_common. Qed.
 Print Assumptions C06_continuity.
 
-(** periods_0 and every value above 3600: integer division by zero (a handler panic). *)
-Theorem C06_pph_range_refuted :
-  (forall seg mode cont st now ases,
-     splitPeriod 0 seg mode cont st now ases = Panic "splitPeriod: integer divide by zero") /\
-  (forall pph seg mode cont st now ases, 3600 < pph ->
-     splitPeriod pph seg mode cont st now ases = Panic "splitPeriod: integer divide by zero").
+(** Every accepted value gives an MPD: with AdaptationSets as LiveMPD hands them over (a
+    SegmentTimeline in the timeline modes, a non-zero @duration for $Number$ templates) the
+    split succeeds - no panic, no other error. *)
+Theorem C06_accepted_total : forall pph seg mode cont ast snr st now ases,
+  1 <= pph <= 3600 -> 0 < seg -> (periodDurOf pph * 1000) mod seg = 0 -> ast <= st <= now ->
+  Forall (wellShaped mode) ases ->
+  exists ps, splitPeriod pph seg mode cont ast snr st now ases = Ok ps.
+Proof. exact splitPeriod_total. Qed.
+Print Assumptions C06_accepted_total.
+
+(** periods-per-hour outside 1..3600 is refused by the configuration check (commit 9fbd9f7,
+    HTTP 400) before splitPeriod is reached ... *)
+Theorem C06_pph_range : forall loopMS c now tsbdMS pph seg mode cont ases,
+  pph <= 0 \/ 3600 < pph ->
+  livePeriods loopMS c now tsbdMS pph seg mode cont ases = Err pphRangeMsg.
+Proof. exact livePeriods_pph_range. Qed.
+Print Assumptions C06_pph_range.
+
+(** ... and that check is needed: splitPeriod itself divides by zero for 0 and for every value
+    above 3600 (this was the panic of periods_0 / periods_5000 before the fix; the function is
+    still exercised directly by the correspondence through the hook). *)
+Theorem C06_pph_guard_needed :
+  (forall seg mode cont ast snr st now ases,
+     splitPeriod 0 seg mode cont ast snr st now ases = Panic "splitPeriod: integer divide by zero") /\
+  (forall pph seg mode cont ast snr st now ases, 3600 < pph ->
+     splitPeriod pph seg mode cont ast snr st now ases = Panic "splitPeriod: integer divide by zero").
 Proof. exact (conj splitPeriod_pph_zero splitPeriod_pph_big). Qed.
-Print Assumptions C06_pph_range_refuted.
+Print Assumptions C06_pph_guard_needed.
 
 (** ** Non-vacuity: testpic-like timeline (2 s segments at 90 kHz with one 4 s segment),
     periods_60, now = 100 s, window from 40 s: the hypotheses of C06_partition hold and the
     periods are P0 (38 s .. 60 s) and P1 (60 s .. 100 s). *)
 Example C06_example :
   goodTL exTL (Some 19) 90000 120 /\
-  splitPeriod 60 2000 MTimelineNr true 40000 100000 [exAS] =
+  splitPeriod 60 2000 MTimelineNr true 0 0 40000 100000 [exAS] =
   Ok [ {| pd_nr := 0; pd_start := 0;
           pd_as := [ {| o_pto := 0; o_startNr := Some 19;
                         o_tl := Some [ {| p_t := Some 3420000; p_d := 180000; p_r := 10 |} ]; o_cont := true |} ] |};
@@ -257,8 +277,4 @@ Example C06_example :
           pd_as := [ {| o_pto := 5400000; o_startNr := Some 30;
                         o_tl := Some [ {| p_t := Some 5400000; p_d := 360000; p_r := 0 |};
                                        {| p_t := Some 5760000; p_d := 180000; p_r := 17 |} ]; o_cont := true |} ] |} ].
-Proof.
-  split; [|vm_compute; reflexivity].
-  constructor; try (vm_compute; intuition congruence); try (cbn; lia).
-  vm_compute. repeat constructor; intuition congruence.
-Qed.
+Proof. split; [apply goodTLb_ok|]; vm_compute; reflexivity. Qed.
